@@ -485,6 +485,30 @@ d_relay := {}; d_calc_allowed_ts := {}; d_distributed_2z := {}; d_burned_2z := {
         self.op(Op::ForgeRaw { to: to.clone(), owner: owner.clone(), lamports: 2_000_000, data }).await;
     }
 
+    /// ProgramData as the loader leaves it after the authority was revoked (`None`), the 32 bytes after the tag still spelling `stale`
+    pub async fn forge_progdata_revoked(&mut self, stale: &K, to: &K, owner: &K) {
+        let mut data = bincode::serialize(&solana_loader_v3_interface::state::UpgradeableLoaderState::ProgramData {
+            slot: 0, upgrade_authority_address: None }).unwrap();
+        data.extend_from_slice(&self.keys.pk(stale).to_bytes());
+        self.op(Op::ForgeRaw { to: to.clone(), owner: owner.clone(), lamports: 2_000_000, data }).await;
+    }
+    /// a ContributorRewards look-alike for service key `svc`: the genuine account's bytes with the recipient table replaced by
+    /// (attacker, 100%), under another owner at another address
+    pub async fn forge_contrib_lookalike(&mut self, svc: &K, attacker: &K, to: &K, owner: &K) {
+        let p = self.keys.pk(&K::RdContrib(b(svc)));
+        let Some(a) = self.ctx.banks_client.get_account(p).await.unwrap() else { return };
+        let mut data = a.data.clone();
+        use core::mem::{offset_of, size_of};
+        let off = 8 + offset_of!(rd::state::ContributorRewards, recipient_shares);
+        let n = size_of::<rd::state::RecipientShares>();
+        if data.len() < off + n { return }
+        for x in &mut data[off..off + n] { *x = 0; }
+        data[off..off + 32].copy_from_slice(&self.keys.pk(attacker).to_bytes());
+        data[off + 32..off + 34].copy_from_slice(&10_000u16.to_le_bytes());
+        self.reg_ata(attacker);
+        self.op(Op::ForgeRaw { to: to.clone(), owner: owner.clone(), lamports: a.lamports, data }).await;
+    }
+
     /// the whole history as one Gallina term (with its local definitions)
     pub fn history_term(&self) -> String {
         let mut s = String::new();
